@@ -104,7 +104,22 @@ def setup(ctx):
     ctx.kf_predicates["D8"] = kf_d8
 
     def kf_d18(f):
-        return f["clause"] in ("closed", "sound") and zero_length_on_boundary([tuple(m) for m in f["input"]["rel"]], f["input"]["caps"])
+        rel = [tuple(m) for m in f["input"]["rel"]]
+        caps = f["input"]["caps"]
+        if not zero_length_on_boundary(rel, caps):
+            return False
+        if f["clause"] in ("closed", "sound"):
+            return True
+        if f["clause"] == "velocity":
+            # the never-ending remainder of the torn note shows up as a fragment without an original: same tear
+            import re
+            m = re.search(r"fragment \((\d+),(\d+),(\d+),", f["detail"])
+            if not m or "originals []" not in f["detail"]:
+                return False
+            c, p, on = (int(x) for x in m.groups())
+            timed, _ = rel_timed(rel)
+            return any(cc == c and pp == p and o == on and o == off for (cc, pp, o, off, v) in notes_of(timed))
+        return False
     ctx.kf_predicates["D18"] = kf_d18
 
 
@@ -141,3 +156,10 @@ def generate(ctx):
         ctx.check("split", {"rel": rel, "caps": caps})
         ctx.corr("split", P.op_split(caps, rel))
         ctx.sample({"rel": rel, "caps": caps})
+    # exhaustive small scope: every list of <= 2 (quick) / <= 4 (thorough) messages x six capacity lists; the oracle
+    # judges the well-formed ones, the correspondence all of them
+    for rel in G.enum_rel(4 if ctx.thorough else 2):
+        for caps in ([1], [2], [3], [1, 1], [1, 2], [2, 1, 1]):
+            ctx.count("small-scope")
+            ctx.check("split", {"rel": rel, "caps": caps})
+            ctx.corr("split", P.op_split(caps, rel))
